@@ -13,13 +13,15 @@ CLAIM = {
             "several sections per payload -- with and without 0xff stuffing; the sink must receive exactly the original sections, in "
             "order, each once, complete and unmodified. With a lost payload (the next one flagged as a discontinuity) every output must "
             "still be an original section, complete, in order and not repeated, and every section transmitted completely before the gap "
-            "or starting at / after the next unit start must be output (resynchronisation).",
+            "or starting at / after the next unit start must be output (resynchronisation). With a section whose header is impossible (long form "
+            "announced with a length too short for extended header + CRC) the sections before it are output, nothing made of the "
+            "corrupt octets is, and every section starting in a payload after the one where the bad header became complete is output.",
     "note": "lib/upipe-ts is not part of this image's baseline build because the external biTStream headers are absent; the merger "
             "compiles here against shim/include/bitstream/mpeg/psi.h (PSI_HEADER_SIZE, psi_get_length, psi_validate: 25 lines written "
             "from the standard -- trusted base, external dependency). Section HEADER octets are concrete (the merger branches on them; "
             "symbolic ones gave no verdict in 300 s), bodies symbolic. Not covered: upipe_ts_psi_split (filter / mask routing) and "
-            "upipe_ts_psi_join, long-form sections (syntax indicator 1), section lengths beyond 3 octets of body (up to 4093), corrupt "
-            "headers.",
+            "upipe_ts_psi_join, long-form sections (syntax indicator 1), section lengths beyond 3 octets of body (up to 4093), other "
+            "kinds of corrupt headers (length above 4093 needs 12-bit lengths).",
     "technique": "CBMC bounded model checking of the real C merger against the generating sections; complete enumeration of cuttings "
                  "within the stated bound, symbolic section bodies",
 }
@@ -48,10 +50,26 @@ def build(tier):
                                         replay_witness=(len(qs) % 40 == 3),
                                         sample={"section body lengths": secs, "payload boundaries (stream octets)": cuts, "stuffing octets": stuff,
                                                 "lost payload": d or None, "bodies": "symbolic"} if len(qs) % 60 == 3 else None))
+    # corrupt header: section c carries an impossible header; every cutting into 2-3 payloads
+    for secs in ([[1, 2, 1]] if quick else [[1, 2, 1], [2, 1, 1], [1, 1, 2, 1]]):
+        total = sum(3 + l for l in secs)
+        for c in range(1, len(secs)):
+            for ncut in ((1, 2) if quick else (1, 2, 3)):
+                for inner in itertools.combinations(range(1, total), ncut):
+                    if quick and ncut == 2 and (inner[0] + inner[1]) % 3:
+                        continue
+                    cuts = [0] + list(inner) + [total]
+                    nm = "psim_sec%s_cut%s_corrupt%d" % ("-".join(map(str, secs)), "-".join(map(str, cuts)), c)
+                    qs.append(Query(name=nm, harness="C16_psim.c",
+                                    defines=["SECTIONS=" + ",".join(map(str, secs)), "CUTS=" + ",".join(map(str, cuts)), "STUFF=0", "DISRUPT=0",
+                                             "CORRUPT=%d" % c, "VERIF_POOL_NO_MGR_REF"], shims=ps.SHIMS, unwind=20, unwindset=UW,
+                                    fp_restrict=True, timeout=280 if quick else 900, leak=True, witness=False,
+                                    sample={"section body lengths": secs, "payload boundaries (stream octets)": cuts,
+                                            "section with an impossible header": c, "bodies": "symbolic"} if len(qs) % 60 == 3 else None))
     meta = {"bounds": {"sections": secsets, "payloads": "1..%d" % (maxcuts + 1), "body_octets": "0-3"},
             "exhaustive": True,
             "rule": "every cutting of the section stream into the stated number of payloads is one query (x stuffing x lost payload)",
             "assumptions": ["biTStream accessors from shim/include/bitstream/mpeg/psi.h (trusted, external dependency)",
                             "section header octets concrete, short form", "sinks / probe / shims as for C04"],
-            "outside": ["upipe_ts_psi_split", "upipe_ts_psi_join", "long-form sections", "sections longer than 6 octets", "corrupt headers"]}
+            "outside": ["upipe_ts_psi_split", "upipe_ts_psi_join", "long-form sections", "sections longer than 6 octets", "announced lengths above 4093"]}
     return qs, meta
